@@ -26,7 +26,13 @@ func randStrForLock() *rand.Rand {
 	return randForLock
 }
 
+// randForLockMutex guards the generator, which is shared by the goroutines of a query.
+var randForLockMutex sync.Mutex
+
 func RandomString(length int) string {
+	randForLockMutex.Lock()
+	defer randForLockMutex.Unlock()
+
 	r := make([]rune, length)
 	for i := 0; i < length; i++ {
 		r[i] = letterRunes[randStrForLock().Intn(len(letterRunes))]
